@@ -546,6 +546,11 @@ class TransferManager(BaseManager):
         await self.manage_user_tracking()
         self.manage_transfers()
 
+        # Transfers in the middle of a state transition were skipped, make sure
+        # they get re-evaluated
+        if any(transfer._state_lock.locked() for transfer in self._transfers):
+            self.request_management_cycle(_RequestFlag.TRANSFER_CHANGE)
+
         duration = time.monotonic() - start
 
         return min(MIN_TRANSFER_MGMT_INTERVAL + duration, MAX_TRANSFER_MGMT_INTERVAL)
@@ -634,6 +639,12 @@ class TransferManager(BaseManager):
         queued_downloads: list[Transfer] = []
         queued_uploads: list[Transfer] = []
         for transfer in self._transfers:
+            # Skip transfers for which a state transition is in progress (f.e.
+            # an abort waiting for its tasks to be cancelled or for the file
+            # to be removed): a task started now would outlive the transition
+            if transfer._state_lock.locked():
+                continue
+
             # Get the user object from the user manager, if the user is tracked
             # this user object will be returned. Otherwise a new user object is
             # created, but not assigned to the user manager, whose status is
